@@ -5,7 +5,7 @@ namespace Driver.Classify
 open Failsafe Failsafe.Classify
 
 structure St where
-  handle : List Cond := []
+  handle : List Reg := []
   abort : List Cond := []
   nontrivial : Nat := 0
 
@@ -21,11 +21,19 @@ def parseConds (s : String) : List Cond :=
     | 'P' => some (.pred (nat! n))
     | _ => none
 
+/-- builder calls including `E` / `Y`: the error-list calls with an empty target list -/
+def parseRegs (s : String) : List Reg :=
+  if s == "-" then [] else
+  (s.splitOn ",").filterMap fun t =>
+    match t.front with
+    | 'E' | 'Y' => some .noTargets
+    | _ => (parseConds t).head?.map Reg.cond
+
 def b2s (b : Bool) : String := if b then "1" else "0"
 
 def step (st : St) (toks : List String) : St × Option String :=
   match toks with
-  | ["cfg", h, a] => ({ st with handle := parseConds h, abort := parseConds a }, none)
+  | ["cfg", h, a] => ({ st with handle := parseRegs h, abort := parseConds a }, none)
   | ["deep", _, eq] =>
     -- values of any result type compare by deep equality: in the model a value is its contents (target 1; an equal copy is 1,
     -- anything else 2)
@@ -39,10 +47,10 @@ def step (st : St) (toks : List String) : St × Option String :=
     | none => (st, some "bad-tree")
     | some err =>
       let o : Outcome := ⟨int! v, err⟩
-      let f := isFailure st.handle o
+      let f := isFailureR st.handle o
       -- the standalone API records (zero value, err) or (val, nil)
       let o2 : Outcome := match err with | some e => ⟨0, some e⟩ | none => ⟨int! v, none⟩
-      let fr := isFailure st.handle o2
+      let fr := isFailureR st.handle o2
       let ab := isAbortable st.abort o
       let rp := if !f then "F0" else if ab then "F1A1" else "F1A0"
       let hp := isCancellable st.abort o
